@@ -385,30 +385,6 @@ def _gp_available():
     import proto
     try:
         outs = core.run_driver(["0 gen.pattern %s\n" % proto.enc("?")])
-
-# ------------------------------------------------------------------------------------------------
-# suite gen_beat: the GENERATED beat definitions (lean/MirGen/Beat.lean, driver op `gen.beat`) vs the real functions, and the
-# primitives of lean/MirModel/PyBeat.lean (`pybeat.*`: np.arange, np.interp, a[k::2]) vs NumPy — the translator's semantic
-# assumptions
-
-def _gb_available():
-    """the functions the translator emitted on THIS run (driver op `gen.beat "?"`)"""
-    import core
-    import proto
-    try:
-        outs = core.run_driver(["0 gen.beat %s\n" % proto.enc("?")])
-
-# ------------------------------------------------------------------------------------------------
-# suite gen_alignment: the GENERATED alignment definitions (lean/MirGen/Alignment.lean, driver op `gen.alignment`) vs the real
-# functions, and the run-time library's primitives themselves (`pyal.*`) vs NumPy / SciPy on the shapes `alignment.validate`
-# never lets through (empty / unequal lengths) — lean/MirModel/PyAl.lean is the translator's semantic assumption
-
-def _ga_available():
-    """the functions the translator emitted on THIS run (driver op `gen.alignment "?"`)"""
-    import core
-    import proto
-    try:
-        outs = core.run_driver(["0 gen.alignment %s\n" % proto.enc("?")])
         v = proto.dec_line(outs[0])[1]
     except Exception:  # noqa: BLE001
         return set()
@@ -484,6 +460,25 @@ def suite_gen_pattern(rng, tier, shard, nshards):
 
 
 SUITES["gen_pattern"] = suite_gen_pattern
+
+
+# ------------------------------------------------------------------------------------------------
+# suite gen_beat: the GENERATED beat definitions (lean/MirGen/Beat.lean, driver op `gen.beat`) vs the real functions, and the
+# primitives of lean/MirModel/PyBeat.lean (`pybeat.*`: np.arange, np.interp, a[k::2]) vs NumPy — the translator's semantic
+# assumptions
+
+def _gb_available():
+    """the functions the translator emitted on THIS run (driver op `gen.beat "?"`)"""
+    import core
+    import proto
+    try:
+        outs = core.run_driver(["0 gen.beat %s\n" % proto.enc("?")])
+        v = proto.dec_line(outs[0])[1]
+    except Exception:  # noqa: BLE001
+        return set()
+    return set(v) if isinstance(v, list) else set()
+
+
 def _gb_case(fn, args, call, tag, nontrivial=True):
     from suites import beat as BS
     return Case("gen.beat", [fn] + list(args), call, tag=tag, nontrivial=nontrivial,
@@ -628,6 +623,25 @@ def _suite_gen_beat(rng, tier, shard, nshards):
 
 
 SUITES["gen_beat"] = suite_gen_beat
+
+
+# ------------------------------------------------------------------------------------------------
+# suite gen_alignment: the GENERATED alignment definitions (lean/MirGen/Alignment.lean, driver op `gen.alignment`) vs the real
+# functions, and the run-time library's primitives themselves (`pyal.*`) vs NumPy / SciPy on the shapes `alignment.validate`
+# never lets through (empty / unequal lengths) — lean/MirModel/PyAl.lean is the translator's semantic assumption
+
+def _ga_available():
+    """the functions the translator emitted on THIS run (driver op `gen.alignment "?"`)"""
+    import core
+    import proto
+    try:
+        outs = core.run_driver(["0 gen.alignment %s\n" % proto.enc("?")])
+        v = proto.dec_line(outs[0])[1]
+    except Exception:  # noqa: BLE001
+        return set()
+    return set(v) if isinstance(v, list) else set()
+
+
 def _ga_retarget(case):
     fn = case.op.split(".", 1)[1]
     info = dict(case.info or {}, op="gen.alignment", fn=fn)
